@@ -423,6 +423,15 @@ func (c *wsConnection) subscribe(start time.Time, msg *message) {
 
 	ctx, cancel := context.WithCancel(ctx)
 	c.mu.Lock()
+	if _, exists := c.active[msg.id]; exists {
+		// An operation with this id is still running: accepting the new one would
+		// interleave two result streams under one id (and overwrite the first one's
+		// cancel function). graphql-transport-ws mandates closing with 4409.
+		c.mu.Unlock()
+		cancel()
+		c.close(4409, fmt.Sprintf("Subscriber for %s already exists", msg.id))
+		return
+	}
 	c.active[msg.id] = cancel
 	c.mu.Unlock()
 
